@@ -45,6 +45,8 @@ type unit struct {
 	// struct types whose literals are translated field by field into a Lean structure instance (absent fields keep the
 	// structure's defaults = Go's zero values); all other literals are named constants (lit_T_...)
 	structLits map[string]bool
+	// pointer-receiver methods that UPDATE the local value they are called on (x.Merge(y) as a statement => x := x.m_Merge y)
+	mutating map[string]bool
 }
 
 var units = map[string]*unit{
@@ -115,6 +117,12 @@ func init() {
 		funcs:   []string{"Inc", "RollingSumAt", "TotalSum", "GetBuckets", "clearBucket", "Reset"},
 		imports: []string{"CircuitModel.GoRollingPrims"}, open: []string{"CM", "CM.Go", "CM.GoRolling", "CM.GoRolling.C"}, vars: "", monad: "QM", types: rollTypes,
 	}
+	units["GoManager"] = &unit{
+		name: "GoManager", file: "manager.go", recv: "Manager", funcs: []string{"GetCircuit", "CreateCircuit", "MustCreateCircuit"},
+		imports: []string{"CircuitModel.GoManagerPrims"}, open: []string{"CM", "CM.Go", "CM.GoManager"}, vars: "", monad: "GMM",
+		types:    map[string]string{"string": "String", "*Circuit": "CircP", "Config": "Lay", "error": "MErr"},
+		mutating: map[string]bool{"Merge": true},
+	}
 	units["GoSetCfg"] = &unit{
 		name: "GoSetCfg", file: "circuit.go", recv: "Circuit", funcs: []string{"SetConfigThreadSafe", "SetConfigNotThreadSafe", "Config"},
 		imports: []string{"CircuitModel.GoSetCfgPrims"}, open: []string{"CM", "CM.Go", "CM.GoSetCfg"}, vars: "", monad: "BM",
@@ -170,7 +178,7 @@ var leanKeywords = map[string]bool{"end": true, "open": true, "from": true, "at"
 	"instance": true, "class": true, "structure": true, "def": true, "theorem": true, "namespace": true, "section": true, "variable": true,
 	"import": true, "export": true, "private": true, "protected": true, "local": true, "for": true, "unless": true, "try": true, "catch": true,
 	"finally": true, "break": true, "continue": true, "Type": true, "Prop": true, "Sort": true, "set": true, "get": true, "run": true, "fn": true,
-	"recv": true, "using": true, "calc": true, "example": true, "abbrev": true, "inductive": true, "deriving": true, "extends": true, "nomatch": true}
+	"recv": true, "using": true, "calc": true, "example": true, "abbrev": true, "inductive": true, "deriving": true, "extends": true, "nomatch": true, "exists": true, "forall": true, "from_": true, "suffices": true, "obtain": true, "macro": true, "syntax": true, "notation": true, "universe": true, "mutual": true, "termination_by": true, "at_": true}
 
 func lname(s string) string {
 	if s == "_" {
@@ -198,6 +206,9 @@ type tr struct {
 }
 
 func (t *tr) ltype(e ast.Expr) string {
+	if el, ok := e.(*ast.Ellipsis); ok {
+		return "(List " + t.ltype(el.Elt) + ")" // a variadic parameter is a slice
+	}
 	s := src(e)
 	if l, ok := t.u.types[s]; ok {
 		return l
@@ -368,6 +379,11 @@ func (t *tr) expr(e ast.Expr) string {
 		bad(e, "selector root is neither the receiver, a local nor an imported package")
 	case *ast.CallExpr:
 		return t.call(x)
+	case *ast.IndexExpr:
+		if root, path, ok := flatten(x.X); ok && root.Name == t.recvVar && t.recvVar != "" && len(path) > 0 {
+			return "(← recv_" + strings.Join(path, "_") + "_at " + t.atom(x.Index) + ")" // an element of a receiver field (map or slice)
+		}
+		bad(e, "index expression")
 	case *ast.TypeAssertExpr:
 		// x.(T): (value, ok) — only the two-value form occurs in assignments of the translated subset
 		if x.Type == nil {
@@ -538,7 +554,16 @@ func (t *tr) call(c *ast.CallExpr) string {
 				}
 				return "(" + base + " ++ [" + strings.Join(els, ", ") + "])"
 			}
+		case "panic":
+			if len(c.Args) == 1 {
+				return "(← goPanic " + t.atom(c.Args[0]) + ")"
+			}
 		case "make":
+			if len(c.Args) >= 1 {
+				if _, ok := c.Args[0].(*ast.MapType); ok {
+					return "goMakeMap"
+				}
+			}
 			// make([]T, 0, cap): the empty slice (the capacity is not observable)
 			if len(c.Args) >= 2 {
 				if _, ok := c.Args[0].(*ast.ArrayType); ok {
@@ -558,7 +583,15 @@ func (t *tr) call(c *ast.CallExpr) string {
 		}
 	}
 	if c.Ellipsis != token.NoPos {
-		bad(c, "variadic call")
+		// f(a, rest...) where the last argument IS the slice: it is passed as the list it is
+		if _, ok := c.Args[len(c.Args)-1].(*ast.Ident); !ok {
+			bad(c, "variadic call")
+		}
+	}
+	if ix, ok := c.Fun.(*ast.IndexExpr); ok {
+		if root, path, ok := flatten(ix.X); ok && root.Name == t.recvVar && t.recvVar != "" && len(path) > 0 {
+			return "(← recv_" + strings.Join(path, "_") + "_call " + t.atom(ix.Index) + t.args(c.Args) + ")"
+		}
 	}
 	switch f := c.Fun.(type) {
 	case *ast.Ident:
@@ -644,6 +677,13 @@ func (t *tr) stmt(s ast.Stmt, ind string, out *[]string) {
 		if !ok {
 			bad(s, "expression statement")
 		}
+		if sel, ok := c.Fun.(*ast.SelectorExpr); ok && t.u.mutating[sel.Sel.Name] {
+			if id, ok := sel.X.(*ast.Ident); ok && t.locals[id.Name] {
+				// a pointer-receiver method updating the local it is called on
+				t.emit(out, ind, lname(id.Name)+" := (← ("+lname(id.Name)+").m_"+sel.Sel.Name+t.args(c.Args)+")")
+				return
+			}
+		}
 		t.emit(out, ind, "let _ := "+t.call(c))
 	case *ast.DeclStmt:
 		gd, ok := x.Decl.(*ast.GenDecl)
@@ -669,6 +709,42 @@ func (t *tr) stmt(s ast.Stmt, ind string, out *[]string) {
 				}
 				t.emit(out, ind, lname(id.Name)+" := "+lname(id.Name)+" "+op+" "+t.atom(x.Rhs[0]))
 				return
+			}
+		}
+		if len(x.Lhs) == 2 && len(x.Rhs) == 1 {
+			if ix, ok := x.Rhs[0].(*ast.IndexExpr); ok {
+				// v, ok := h.m[k]
+				if root, path, ok := flatten(ix.X); ok && root.Name == t.recvVar && t.recvVar != "" && len(path) > 0 {
+					t.tmp++
+					tmp := fmt.Sprintf("tmp__%d", t.tmp)
+					t.emit(out, ind, "let "+tmp+" := (← recv_"+strings.Join(path, "_")+"_lookup "+t.atom(ix.Index)+")")
+					for i, l := range x.Lhs {
+						id, ok := l.(*ast.Ident)
+						if !ok {
+							bad(s, "assignment target")
+						}
+						if id.Name == "_" {
+							continue
+						}
+						proj := []string{".1", ".2"}[i]
+						if x.Tok == token.DEFINE && !t.locals[id.Name] {
+							t.locals[id.Name] = true
+							t.emit(out, ind, "let mut "+lname(id.Name)+" := "+tmp+proj)
+						} else {
+							t.emit(out, ind, lname(id.Name)+" := "+tmp+proj)
+						}
+					}
+					return
+				}
+			}
+		}
+		if x.Tok == token.ASSIGN && len(x.Lhs) == 1 && len(x.Rhs) == 1 {
+			if ix, ok := x.Lhs[0].(*ast.IndexExpr); ok {
+				if root, path, ok := flatten(ix.X); ok && root.Name == t.recvVar && t.recvVar != "" && len(path) > 0 {
+					// h.m[k] = v
+					t.emit(out, ind, "let _ := (← recv_"+strings.Join(path, "_")+"_store "+t.atom(ix.Index)+" "+t.atom(x.Rhs[0])+")")
+					return
+				}
 			}
 		}
 		if x.Tok == token.ASSIGN && len(x.Lhs) == 1 && len(x.Rhs) == 1 {
@@ -746,6 +822,28 @@ func (t *tr) stmt(s ast.Stmt, ind string, out *[]string) {
 		as, ok := x.Init.(*ast.AssignStmt)
 		if !ok || as.Tok != token.DEFINE || len(as.Lhs) != 1 || len(as.Rhs) != 1 {
 			bad(s, "for-loop init")
+		}
+		// for i := len(X) - 1; i >= 0; i-- { ... }: the indices of X from last to first
+		if be, ok := as.Rhs[0].(*ast.BinaryExpr); ok && be.Op == token.SUB {
+			one, isOne := be.Y.(*ast.BasicLit)
+			lc, isLen := be.X.(*ast.CallExpr)
+			iv, isId := as.Lhs[0].(*ast.Ident)
+			cond, isCond := x.Cond.(*ast.BinaryExpr)
+			post, isPost := x.Post.(*ast.IncDecStmt)
+			if isOne && one.Value == "1" && isLen && isId && isCond && isPost && post.Tok == token.DEC && cond.Op == token.GEQ {
+				if fn, ok := lc.Fun.(*ast.Ident); ok && fn.Name == "len" && len(lc.Args) == 1 {
+					if ci, ok := cond.X.(*ast.Ident); ok && ci.Name == iv.Name {
+						if z, ok := cond.Y.(*ast.BasicLit); ok && z.Value == "0" {
+							if pi, ok := post.X.(*ast.Ident); ok && pi.Name == iv.Name {
+								t.locals[iv.Name] = true
+								t.emit(out, ind, "for "+lname(iv.Name)+" in goCountdown (goLen "+t.atom(lc.Args[0])+") do")
+								t.block(x.Body.List, ind+"  ", out)
+								return
+							}
+						}
+					}
+				}
+			}
 		}
 		iv, ok := as.Lhs[0].(*ast.Ident)
 		if bl, isLit := as.Rhs[0].(*ast.BasicLit); !ok || !isLit || bl.Value != "0" {
